@@ -274,7 +274,7 @@ impl Check for Timelock {
             let (kind, got) = match s {
                 Step::Advance { n } => {
                     w.advance(*n);
-                    st.ledgers += *n as u64;
+                    st.ledgers += *n as u64; st.hit("clock.advance"); if *n > 100_000 { st.hit("clock.jump"); }
                     ("advance", true)
                 }
                 Step::SetTrap { on } => {
